@@ -1269,11 +1269,22 @@ int restore_string (char *val, svalue_t * sv) {
   return 0;
 }
 
+/* Every top-level restore starts from a clean slate: nesting depth and the table of sizes recorded by an
+ * earlier restore (kept when that one ended at depth 0, or was given up half-way) must not leak into this one. */
+static void reset_restore_sizes (void) {
+  save_svalue_depth = save_max_depth = 0;
+  if (save_svalue_sizes)
+    FREE ((char *) save_svalue_sizes);
+  save_svalue_sizes = (int *) 0;
+}
+
 /* for this case, the variable in question has been set to zero already,
    and we don't have to worry about preserving it */
 int restore_svalue (char *cp, svalue_t * v) {
   int ret;
   char c;
+
+  reset_restore_sizes ();
 
   switch (c = *cp++)
     {
@@ -1335,6 +1346,8 @@ int safe_restore_svalue (char *cp, svalue_t * v) {
   int ret;
   svalue_t val;
   char c;
+
+  reset_restore_sizes ();
 
   val.type = T_NUMBER;
   switch (c = *cp++)
